@@ -31,9 +31,7 @@ Definition kind_of_default (d : pdefault) : option akind :=
   | DInt _ => Some KInt
   | DBool _ => Some KBool
   | DList _ => Some KList
-  | DOther _ _ => Some KStr   (* placeholder: [akind] has no constructor for other types; the
-                                 real type name is [kind_name] below.  Such a kind is not bool
-                                 and not list, which is all the rest of the model looks at. *)
+  | DOther ty _ => Some (KOther ty CFailV [])   (* the callable itself; its oracle is the parser checks' business *)
   | DEmpty | DNone => None
   end.
 
